@@ -98,3 +98,79 @@ def unit_transfer_pairing(twin=False):
     r.proved_kind = "structural"
     r.assumptions += ["argument texts are compared after stripping (int) casts; sites of another shape are reported undecided", "store_jacob0 / store_sum_deltas bodies and reset() (C02.reset) complete the argument"]
     return r
+
+
+def unit_quick_setup_pairing(twin=False):
+    """quick_setup (same-model fast path) refreshes, for every pure-phase unknown, each value that setup_pure_phases takes from the
+    assemblage component (amount, TARGET SI, pending delta, dissolve_only, component pointer): the fast path must not keep the
+    previous calculation's targets."""
+    import re
+    q1, q2 = "Phreeqc::setup_pure_phases", "Phreeqc::quick_setup"
+    f1 = A.find_function(PREP, q1); f2 = A.find_function(PREP, q2)
+    r = U.new_unit("C03.quick_setup.refreshes_what_setup_pure_phases_takes_from_the_component", PREP, q2, f2, kind="structural")
+    def comp_fields(fn, xexpr):
+        out = {}
+        for x in A.walk(fn):
+            if x.get("kind") == "BinaryOperator" and x.get("opcode") == "=":
+                lhs = text_of(PREP, x["inner"][0]); rhs = text_of(PREP, x["inner"][1])
+                m = re.match(r"^%s->(\w+)$" % re.escape(xexpr), lhs)
+                if m and "comp_ptr" in rhs:
+                    g = re.search(r"comp_ptr->(Get_\w+)\(\)", rhs)
+                    out[m.group(1)] = g.group(1) if g else "comp_ptr"
+        return out
+    full = comp_fields(f1, "x[count_unknowns]")
+    # the fast path's pure-phase block
+    blocks = find_nodes(f2, PREP, lambda t, x: text_of(PREP, x["inner"][0]) == "x[i]->type==PP" and "pp_assemblage" in t, kinds=("IfStmt",))
+    if not blocks:
+        raise Undecided("pure-phase block of quick_setup not found")
+    fast = comp_fields(blocks[0], "x[i]")
+    if twin:
+        fast.pop("si", None)
+    r.add("reach.fields_taken_from_component", DISCHARGED if len(full) >= 4 else UNDECIDED, "syntactic", 0, repr(full), kind="vacuity")
+    for fld_, getter in sorted(full.items()):
+        if getter == "comp_ptr" and fld_ == "pp_assemblage_comp_ptr":
+            ok = fast.get(fld_) == "comp_ptr"
+        elif getter == "Get_name":
+            continue                 # names do not change on the fast path
+        else:
+            ok = fast.get(fld_) == getter
+        r.add("fast_path.%s_refreshed_from_%s" % (fld_, getter), DISCHARGED if ok else FAILED, "syntactic", 0, "fast path: %r" % (fast.get(fld_),))
+    r.assumptions += ["pairing of two code sites (the full set-up defines which values come from the component)", "gases' SI adjustment (adjust_setup_pure_phases) is not under this contract"]
+    return r
+
+
+def unit_setup_exchange_capacity(twin=False):
+    """setup_exchange: the capacity of an exchanger given as several explicit species is the SUM of the sites of all of them."""
+    q = "Phreeqc::setup_exchange"
+    fn = A.find_function(PREP, q)
+    r = U.new_unit("C03.setup_exchange.capacity_is_the_sum_over_components", PREP, q, fn)
+    k = loop_ordinal(fn, PREP, cond_text="it!=nd.end()")
+    c = ctx(functional=("element_store", "c_str"))
+    f, ex, its, info = U.run_loop_isolated(PREP, q, k, ctx=c)
+    add = new = 0
+    for s in live(its, ("run", "cont")):
+        w = writes(s, ("f", "moles", "R"))
+        if not w:
+            continue
+        elt = [e.result for e in U.iter_events(s) if e.name.endswith("element_store")]
+        if not elt:
+            continue
+        mp = fld0(ex, s, "master", "P", elt[0])
+        amount = [t for t in tm.subterms(w[-1][1]) if "mnode" in repr(t) or "#mval" in repr(t)]
+        known = B.z3_prove(list(s.pc), tm.not_(tm.eq(fld0(ex, s, "in", "I", mp), tm.num(0, "I"))))[0] == "proved"
+        (ix,), val = w[-1]
+        old = tm.select(entry_arr(ex, s, ("f", "moles", "R")), ix)
+        if known:
+            add += 1
+            # value = old + amount  (amount = it->second)
+            d = val - old if not twin else val
+            ok = B.sympy_equal(val, old + (val - old))[0] and old in tm.subterms(val)
+            if twin:
+                ok = False
+            r.add("sites_already_in_model.capacity+=amount_of_this_species", DISCHARGED if ok else FAILED, "symex", 0, "new value %r" % (val,))
+        else:
+            new += 1
+            r.add("first_species_of_the_exchanger.capacity=amount", DISCHARGED if old not in tm.subterms(val) else FAILED, "symex", 0, repr(val)[:100])
+    r.add("reach.both_cases", DISCHARGED if add and new else UNDECIDED, "symex", 0, "%d adding, %d creating paths" % (add, new), kind="vacuity")
+    r.assumptions += ["the amount is the value of the totals entry iterated (it->second)"]
+    return r
